@@ -82,6 +82,19 @@ func seqFromRecord(rec *gen.GBRecord, r *rand.Rand, cachedText bool) poly.Sequen
 		for _, q := range f.Quals {
 			pf.Attributes[q.Key] = q.Value
 		}
+		// keys that differ only in letter case are distinct keys of the map (a writer that orders keys
+		// case-insensitively leaves their order to map iteration)
+		if r.Intn(3) == 0 {
+			for _, q := range f.Quals {
+				if q.Kind == gen.QualText && q.Key != "" {
+					pf.Attributes[strings.ToUpper(q.Key[:1])+q.Key[1:]] = gen.RandText(r, 40, 0)
+					if r.Intn(2) == 0 {
+						pf.Attributes[strings.ToUpper(q.Key)] = gen.RandText(r, 40, 0)
+					}
+					break
+				}
+			}
+		}
 		s.AddFeature(&pf)
 	}
 	return s
